@@ -10,6 +10,7 @@ C         : roundtrip  json.loads(x.to_json(**o)) == dropEmptyIf(o, x)   (typed,
             constructor n0dict(text)/n0list(text) == json.loads(text), nested objects are n0dict and navigable by xpath
 """
 import itertools
+import copy
 import json
 import math
 
@@ -188,23 +189,65 @@ def valid_opts(o):
     return isinstance(o, dict) and set(o) == {"indent", "pairs", "skip", "compress"} and isinstance(o["indent"], int) and not isinstance(o["indent"], bool) and 0 <= o["indent"] <= 8 and all(isinstance(o[k], bool) for k in ("pairs", "skip", "compress"))
 
 
-def build(t):
+def build(t, memo=None):
+    """memo (a dict) given: equal container descriptions are built ONCE and the same object stands at
+    every place they occur (a tree that refers to one container from two positions)"""
     from n0struct import n0dict, n0list  # noqa
 
     if t is None or isinstance(t, (bool, int, str)):
         return t
     if "F" in t:
         return float(t["F"])
+    key = None
+    if memo is not None:
+        key = json.dumps(t, sort_keys=True)
+        if key in memo:
+            return memo[key]
     if "L" in t:
-        xs = [build(x) for x in t["xs"]]
-        return n0list(xs) if t["L"] == "n" else xs
-    kv = [(k, build(v)) for k, v in t["kv"]]
-    if t["D"] == "n":
-        d = n0dict()
-        for k, v in kv:
-            dict.__setitem__(d, k, v)
-        return d
-    return dict(kv)
+        xs = [build(x, memo) for x in t["xs"]]
+        out = n0list(xs) if t["L"] == "n" else xs
+    else:
+        kv = [(k, build(v, memo)) for k, v in t["kv"]]
+        if t["D"] == "n":
+            out = n0dict()
+            for k, v in kv:
+                dict.__setitem__(out, k, v)
+        else:
+            out = dict(kv)
+    if memo is not None:
+        memo[key] = out
+    return out
+
+
+def containers_of(t, root=True):
+    out = []
+    if isinstance(t, dict) and "xs" in t:
+        if not root and t["xs"]:
+            out.append(t)
+        for x in t["xs"]:
+            out += containers_of(x, False)
+    elif isinstance(t, dict) and "kv" in t:
+        if not root and t["kv"]:
+            out.append(t)
+        for _, v in t["kv"]:
+            out += containers_of(v, False)
+    return out
+
+
+def with_shared(rng, t):
+    """a copy of the root description in which one inner container occurs a second time"""
+    t = copy.deepcopy(t)
+    cs = containers_of(t)
+    if not cs:
+        return None
+    s = copy.deepcopy(rng.choice(cs))
+    if "xs" in t:
+        t["xs"].insert(rng.randrange(len(t["xs"]) + 1), s)
+    else:
+        if any(k == "sh" for k, _ in t["kv"]):
+            return None
+        t["kv"].insert(rng.randrange(len(t["kv"]) + 1), ["sh", s])
+    return t
 
 
 def depth_of(t, lvl=0):
@@ -292,7 +335,7 @@ def strip_outside(text):
 # C: the statement on the implementation
 # ---------------------------------------------------------------------------
 def check_roundtrip(c):
-    obj = build(c["t"])
+    obj = build(c["t"], {} if c.get("shared") else None)
     o = c["o"]
     if c.get("after_debug"):
         # the same process has printed the same tree with the debug convention before (n0debug / n0pretty):
@@ -615,6 +658,15 @@ def run(ctx):
     ro0 = ctx.rng("after_debug")
     adcases = [{"t": t, "o": gen_opts(ro0), "after_debug": True} for t in fam + trees[: ctx.budget(400, 5000)]]
     ctx.evaluate("roundtrip/after_debug", adcases, check_roundtrip, in_known=in_known_eval)
+
+    # ---- C0b: trees in which one container object stands at two positions
+    rsh = ctx.rng("shared")
+    shcases = []
+    for t in fam + trees[: ctx.budget(1500, 15000)]:
+        t2 = with_shared(rsh, t)
+        if t2 is not None and valid_tree(t2):
+            shcases.append({"t": t2, "o": gen_opts(rsh), "shared": True})
+    ctx.evaluate("roundtrip/shared", shcases, check_roundtrip, in_known=in_known_eval)
 
     # ---- B0: primitives
     rs = ctx.rng("esc")
